@@ -15,7 +15,7 @@ META = dict(
     id='C10',
     level='proof',
     technique='Coq proof (price map / price graph model refined to "latest entry not after D, later insertion wins a tie", reciprocal, product along the unique path) + differential correspondence of the extracted model against ledger',
-    level_text='Theorems in coq/Properties/Properties_C10.v state, for all price histories (any number of entries, any insertion order, any moments) and all valuation moments, that the model of commodity_history_impl_t selects per commodity pair exactly the latest entry not after D (a later insertion replacing an earlier one at the same moment, nothing when every entry is later), that entries dated after D never influence an edge or a conversion, that a reversed quote is used as its reciprocal and a chain as the product along the unique path, that a converted amount is exactly price times quantity and that an amount without applicable price stays as it is; the memoising lookup equals the plain lookup once the journal has been read, and is refuted (with witness) for lookups made while prices are still being recorded. The model is tied to the code by running generated journals through freshly built ledger (bal/reg -X/-V, prices, pricedb; exact num/den through the verif_rational hook) and the extracted model and comparing every row.',
+    level_text='Theorems in coq/Properties/Properties_C10.v state, for all price histories (any number of entries, any insertion order, any moments) and all valuation moments, that the model of commodity_history_impl_t selects per commodity pair exactly the latest entry not after D (a later insertion replacing an earlier one at the same moment, nothing when every entry is later), that entries dated after D never influence an edge or a conversion, that a reversed quote is used as its reciprocal and a chain as the product along the unique path, that a converted amount is exactly price times quantity and that an amount without applicable price stays as it is; the memoising lookup equals the plain lookup for every interleaving of lookups and price recordings (so lookups made by expressions evaluated while the journal is read cannot change a report). The model is tied to the code by running generated journals through freshly built ledger (bal/reg -X/-V, prices, pricedb; exact num/den through the verif_rational hook) and the extracted model and comparing every row.',
     level_note='Trusted: Coq kernel; extraction + OCaml driver and the python harness for the correspondence; GMP modelled as Q. Priced pairs form a forest (unique paths): the choice Dijkstra makes among several paths is not modelled nor claimed. Fixated lot prices ({=..}), value expressions on commodities, price download (-Q) and a default commodity (D directive) are outside the model.',
     design_ref='DESIGN.md section 7 C10',
     assumptions=['the priced commodity pairs of a journal form a forest (the quantifier of the property: an edge, a reversed edge or a simple chain)',
@@ -581,7 +581,7 @@ def run(ctx, n_override=None):
                 '1-6 distinct days in shuffled order; each observed through bal -X/-V at dates before, on, between and after '
                 'the price days, reg -X/-V, prices, pricedb; non-trivial = the report converts at least one amount through '
                 'a recorded price or lists at least one price; distinct by journal text + command line')
-    nj = n_override or ctx.scale(500, 4000)
+    nj = n_override or ctx.scale(500, 3000)
     nmemo = max(10, nj // 8)
     queries = []
     journals = []
